@@ -697,3 +697,36 @@ mod tests {
         assert!((super::chi2_sf(37.33, 1.) - 1e-9).abs() < 2e-10);
     }
 }
+
+
+// ------------------------------------------------------------------------------------------------
+// trace logging as part of the environment: `log` macros evaluate their arguments only when the level is enabled, so code
+// inside them runs only under a logger.  A discarding logger is installed once; with_trace_logging raises the global level
+// to Trace for the duration of a closure (callers keep these scopes sequential).
+
+struct DiscardLogger;
+impl log::Log for DiscardLogger {
+    fn enabled(&self, _: &log::Metadata) -> bool {
+        true
+    }
+    fn log(&self, record: &log::Record) {
+        // format the arguments as a real logger would
+        let _ = std::fmt::format(*record.args());
+    }
+    fn flush(&self) {}
+}
+static DISCARD: DiscardLogger = DiscardLogger;
+static LOGGER_ONCE: std::sync::Once = std::sync::Once::new();
+
+pub fn with_trace_logging<R>(f: impl FnOnce() -> R) -> R {
+    LOGGER_ONCE.call_once(|| {
+        let _ = log::set_logger(&DISCARD);
+    });
+    log::set_max_level(log::LevelFilter::Trace);
+    let r = std::panic::catch_unwind(std::panic::AssertUnwindSafe(f));
+    log::set_max_level(log::LevelFilter::Off);
+    match r {
+        Ok(v) => v,
+        Err(e) => std::panic::resume_unwind(e),
+    }
+}
